@@ -374,7 +374,10 @@ func runC05(c *h.Ctx) {
 			runMatrixCase(c, xe+"."+m, vars, vt)
 			runMatrixCase(c, xe+"."+m+".type()", vars, vt)
 		}
-		for _, form := range []string{"$.a[%s]", "%s[0]", "%s[*]", "%s.*", "%s.**", "%s.**{last}", "%s.a", `%s like_regex "a"`, `%s like_regex "" flag "q"`, "%s ? (@ == 1)", "%s ? (exists(@.a))", "exists(%s)", "!(%s == 1)", "%s.keyvalue().value", "%s.keyvalue().keyvalue().id", "%s.size().size()"} {
+		for _, form := range []string{"$.a[%s]", "%s[0]", "%s[*]", "%s.*", "%s.**", "%s.**{last}", "%s.a", `%s like_regex "a"`, `%s like_regex "" flag "q"`, "%s ? (@ == 1)", "%s ? (exists(@.a))", "exists(%s)", "!(%s == 1)", "%s.keyvalue().value", "%s.keyvalue().keyvalue().id", "%s.size().size()",
+			// a predicate in parentheses with steps after it
+			`(%s like_regex "a").type()`, `(%s like_regex "^a" flag "i").string()`, "(%s == 1).type()", "(exists(%s)).string()", "(!(%s == 1)).type()", "((%s == 1) is unknown).string()", `(%s starts with "a").type()`,
+			`$.a[*] ? ((@ like_regex "a").type() == "boolean" || (%s == @).string() == "true")`, `$.a[(%s like_regex "1").string().size()]`} {
 			runMatrixCase(c, fmt.Sprintf(form, xe), vars, vt)
 		}
 	}
